@@ -432,6 +432,8 @@ func (rt *runtime) cmplEvaluateNodeTryStatement(node *nodeTryStatement) Value {
 		tryCatchValue, exep = rt.tryCatchEvaluate(func() Value {
 			return rt.cmplEvaluateNodeStatement(node.catch.body)
 		})
+		// The catch parameter is not in scope in the finally block (12.14)
+		rt.scope.lexical = outer
 	}
 
 	if node.finally != nil {
